@@ -33,6 +33,7 @@ func c16(tier string) int {
 		{Name: "pool-stop", Params: "w=1,k=1,g=1", MaxBound: b},
 		{Name: "pool-sched", Params: "w=1", MaxBound: b},
 		{Name: "pool-stop-busy", MaxBound: b},
+		{Name: "pool-stop-busy-restart", MaxBound: b},
 		{Name: "pool-busy", Params: "w=1,k=4,s=1,l=1", MaxBound: b},
 		{Name: "pool-busy", Params: "w=1,k=3,s=1,l=1", MaxBound: 3},
 		{Name: "pool-busy", Params: "w=1,k=4,s=2,l=0", MaxBound: b},
